@@ -20,7 +20,7 @@ From PTK Require Import Lib.Sx Lib.Py Lib.C07_Lemmas Model.C07_Undo Model.C07_Ke
   Gen.C07_Bindings Proofs.C07_UndoFacts Proofs.C07_KeysFacts Proofs.C07_TableFacts.
 From PTK Require Import Model.Document Model.BufferEdit.
 From PTK Require Model.C09_Kill.
-From PTK Require Import Proofs.C07_Payloads.
+From PTK Require Import Proofs.C07_Payloads Proofs.C07_KeyHistFacts.
 Import ListNotations.
 Open Scope Z_scope.
 
@@ -114,7 +114,13 @@ Proof. exact no_assert. Qed.
 Print Assumptions C07_no_assert.
 
 (* A key session is a buffer-level operation list: everything above holds for
-   sessions dispatched through KeyProcessor._call_handler, whatever the table. *)
+   sessions dispatched through KeyProcessor._call_handler, whatever the table.
+   CAUTION: one dispatch expands to several buffer-level operations, so the
+   buffer-level ghost history [grun] of an expanded key session also contains
+   mid-dispatch states; the statements whose history has exactly one entry per
+   dispatched command are C07_key_stack_is_history,
+   C07_key_undo_lands_in_history and C07_key_undo_run_reverse_chronological
+   below (over [kgrun]). *)
 Theorem C07_key_session_is_op_list : forall tbl evs s,
   kbuf (krun tbl s evs) = urun (kbuf s) (expand_all tbl s evs).
 Proof. exact krun_expand_all. Qed.
@@ -402,12 +408,75 @@ Theorem C07_table_undo_handlers_modelled : forall h,
 Proof. exact live_undo_roles. Qed.
 Print Assumptions C07_table_undo_handlers_modelled.
 
+(* ---- the history theorems over the KEY-level history (round 5) ---- *)
+
+(* [kgrun] records the buffer's (text, cursor) ONCE per dispatched command (key
+   event or direct redo() call) - no mid-dispatch states, nothing for terminal
+   reports, restarted by a new prompt.  Over that history, for every session on
+   the real table: undo-stack entries are states the buffer had when an earlier
+   command was dispatched, in chronological order at distinct commands;
+   redo-stack entries are such states. *)
+Theorem C07_key_stack_is_history : forall t0 c0 evs,
+  0 <= c0 <= len t0 -> Forall kev_ok evs ->
+  let g := kgrun c07_rows (kfresh t0 c0) evs in
+  subseq (ustack (kbuf (fst g))) (snd g) /\ incl (rstack (kbuf (fst g))) (snd g).
+Proof. exact (fun t0 c0 evs => key_stack_is_history c07_rows t0 c0 evs live_no_redo_handler). Qed.
+Print Assumptions C07_key_stack_is_history.
+
+(* Buffer.undo() after any key session: a no-op, or it lands exactly on the
+   state of an earlier command boundary, the rest of the stack being older.
+   (An undo KEY is this followed by the Vi cursor fix-up:
+   C07_undo_key_is_n_undos.) *)
+Theorem C07_key_undo_lands_in_history : forall t0 c0 evs,
+  0 <= c0 <= len t0 -> Forall kev_ok evs ->
+  let g := kgrun c07_rows (kfresh t0 c0) evs in
+  let s := kbuf (fst g) in
+  let past := snd g in
+  (utext (undo s) = utext s /\ ucur (undo s) = ucur s /\ ustack (undo s) = [] /\
+   rstack (undo s) = rstack s /\ forall e, In e (ustack s) -> fst e = utext s)
+  \/
+  (exists newer older,
+     past = newer ++ here (undo s) :: older /\
+     utext (undo s) <> utext s /\
+     subseq (ustack (undo s)) older /\
+     rstack (undo s) = here s :: rstack s).
+Proof. exact (fun t0 c0 evs => key_undo_lands_in_history c07_rows t0 c0 evs live_no_redo_handler). Qed.
+Print Assumptions C07_key_undo_lands_in_history.
+
+Theorem C07_key_undo_run_reverse_chronological : forall t0 c0 evs k,
+  0 <= c0 <= len t0 -> Forall kev_ok evs ->
+  let g := kgrun c07_rows (kfresh t0 c0) evs in
+  subseq (undo_landings (kbuf (fst g)) k) (snd g).
+Proof. exact (fun t0 c0 evs k => key_undo_run_reverse_chronological c07_rows t0 c0 evs k live_no_redo_handler). Qed.
+Print Assumptions C07_key_undo_run_reverse_chronological.
+
+(* k presses of an undo key visit the texts, and leave the undo stack, of k
+   calls of Buffer.undo(): the cursor fix-up in between changes neither. *)
+Theorem C07_undo_key_presses : forall tbl h nav k s,
+  r_act (lookup tbl h) = 1 -> r_cls (lookup tbl h) = 0 ->
+  let s' := krun tbl s (repeat (UndoKey h 1 nav) k) in
+  utext (kbuf s') = utext (iter_op Undo k (kbuf s)) /\
+  ustack (kbuf s') = ustack (iter_op Undo k (kbuf s)).
+Proof. exact undo_key_presses. Qed.
+Print Assumptions C07_undo_key_presses.
+
+(* Redo right after an undo KEY (n >= 1 effective undos in one dispatch, then
+   the Vi cursor fix-up): n redo() calls restore text, cursor and redo stack. *)
+Theorem C07_redo_inverts_undo_key : forall tbl s h n nav,
+  r_act (lookup tbl h) = 1 -> r_cls (lookup tbl h) = 0 ->
+  wf (kbuf s) -> 1 <= n -> all_effective (kbuf s) (Z.to_nat n) ->
+  let s' := krun tbl s (UndoKey h n nav :: repeat DRedo (Z.to_nat n)) in
+  here (kbuf s') = here (kbuf s) /\ rstack (kbuf s') = rstack (kbuf s).
+Proof. exact redo_inverts_undo_key. Qed.
+Print Assumptions C07_redo_inverts_undo_key.
+
 (* Non-vacuity: a reachable state with two stacked snapshots and a redo entry
    is well-formed; the real table has every role. *)
 Example C07_hypotheses_satisfiable :
   wf (urun (fresh [97] 1) [Cmd true [97; 98] 2; Cmd true [97; 98; 99] 3; Cmd true [] 0; Undo]) /\
   all_effective (urun (fresh [97] 1) [Cmd true [97; 98] 2; Cmd true [97; 98; 99] 3; Cmd true [] 0]) 2 /\
-  has_role c07_rows 1 = true /\ has_role c07_rows 4 = true /\ has_role c07_rows 6 = true /\
+  has_role c07_rows 1 = true /\ has_role c07_rows 2 = true /\ has_role c07_rows 3 = true /\
+  has_role c07_rows 4 = true /\ has_role c07_rows 5 = true /\ has_role c07_rows 6 = true /\
   has_role c07_rows 7 = true /\ has_role c07_rows 8 = true /\ has_role c07_rows 9 = true /\ has_role c07_rows 10 = true.
 Proof.
   split; [apply wf_run; [apply wf_fresh; vm_compute; split; discriminate|
